@@ -28,13 +28,13 @@ def gen_cases(tier, seed):
     n = {"quick": 120, "search": 400, "thorough": 1500}[tier]
     cases = []
     for i in range(n):
-        cases.append({"bseed": rng.randrange(1 << 48), "kind": rng.choice(["valid", "valid", "mutated", "mutated", "random", "validbig"]),
+        cases.append({"bseed": rng.randrange(1 << 48), "kind": rng.choice(["valid", "valid", "mutated", "mutated", "random", "validbig", "streamdec"]),
                       "count": 24})
     if tier == "thorough":
         cases.append({"kind": "exhaustive", "maxlen": 5, "count": 0, "bseed": 0})
     return cases
 
-DICT_SIZES = [0, 0, 1, 7, 8, 100, 4000, 65535, 65536, 70000]
+DICT_SIZES = [0, 0, 1, 7, 8, 100, 4000, 65534, 65535, 65536, 70000]
 ALPHA = [0x00, 0x01, 0x0F, 0x10, 0xF0, 0xFF]
 
 def worker_init(ctx):
@@ -85,6 +85,91 @@ def one(st, blk, content_len, rng, res, extra_ok=True):
         res["stats"]["ret_" + ("neg" if r < 0 else "zero" if r == 0 else "pos")] += 1
         res["stats"]["api_" + api] += 1
 
+def stream_decode_case(st, rng, res):
+    """LZ4_decompress_safe_continue on ONE stream-decode object over several streams (reset with
+    LZ4_setStreamDecode between them, with and without a dictionary), each stream decoded into its own
+    exact-size heap buffers which are FREED when the stream ends: a decoder that keeps referring to a
+    previous stream's memory, or reads before the history it was given, is caught by ASan.
+    Blocks are valid or malformed (offsets reaching beyond the real history)."""
+    from capi import Buf
+    for bname, dec in st["libs"].items():
+        lib = dec.lib
+        sd = Buf(64, fill=0)
+        for stream in range(rng.choice([2, 3, 4])):
+            use_dict = rng.random() < 0.4
+            dictb = None
+            if use_dict:
+                dsz = rng.choice([1, 8, 100, 5000, 65536, 70000])
+                dictb = Buf(dsz, data=rng.randbytes(dsz))
+                lib.setStreamDecode(sd.p, dictb.p, dsz)
+                seg = dictb.bytes()          # the dictionary is the stream's first (prefix) segment
+            else:
+                lib.setStreamDecode(sd.p, None, 0)
+                seg = b""
+            ext = b""                        # the segment before the current one (only ONE is remembered)
+            nblocks = rng.choice([1, 2, 3, 5])
+            geometry = rng.choice(["contig", "switch", "double"])
+            bufs = []
+            total = 0
+            cur = None; curpos = 0
+            for b in range(nblocks):
+                valid = rng.random() < 0.6
+                # where will this block be decoded?  contiguous to the current segment, or in another buffer
+                # (then the current segment becomes the only external dictionary and older data is forgotten)
+                probe_cap = None
+                contiguous = (geometry == "contig" and cur is not None)
+                hist_contig = (ext + seg)[-65536:]
+                hist_switch = seg[-65536:]
+                hist = hist_contig if contiguous else hist_switch
+                blk, content, seqs = declib.gen_valid_block(rng, hist, max_seqs=6)
+                if not valid:
+                    # make one offset reach before the available history
+                    lits = rng.randbytes(rng.choice([0, 3, 12]))
+                    have = len(hist_contig if contiguous else hist_switch) + len(lits)
+                    far = have + rng.choice([1, 2, 16, 300, 20000])
+                    if far > 65535:
+                        # cannot express an out-of-history offset: use a valid block instead
+                        far = None
+                    if far is not None:
+                        blk = declib.enc_seq(lits, far, rng.choice([4, 8, 20])) + declib.enc_last(rng.randbytes(12))
+                        content = None
+                D = len(content) if content is not None else 64
+                cap = D + rng.choice([0, 0, 1, 13])
+                if contiguous and curpos + cap <= cur.n:
+                    dst = cur; off = curpos
+                elif contiguous:
+                    # no room left: grow by moving to a buffer that holds the whole current segment again is not
+                    # possible through this API; end the stream here
+                    break
+                else:
+                    size = cap if geometry != "contig" else cap + rng.choice([200, 5000, 70000])
+                    dst = Buf(max(size, 1), fill=0x5A); off = 0; bufs.append(dst); cur = dst; curpos = 0
+                    ext = seg[-65536:]; seg = b""
+                srcb = Buf(len(blk), data=blk)
+                r = lib.decompress_safe_continue(sd.p, srcb.p, (dst.p or 0) + off, len(blk), cap)
+                res["evals"] += 1
+                srcb.free()
+                if content is not None:
+                    got = dst.bytes(D, off) if r == D else None
+                    if r != D or got != content:
+                        res["fails"].append({"status": "prop_fail", "what": "LZ4_decompress_safe_continue returned %d for a valid block of %d bytes (or wrong bytes), stream %d block %d, geometry %s, build %s" % (r, D, stream, b, geometry, bname),
+                                             "detail": {"blk": blk.hex()[:400], "hist_len": len(hist)}})
+                        break
+                    seg = (seg + content)[-140000:]
+                    curpos = off + D
+                    res["keys"].add(hashlib.sha1(blk + bytes([stream, b])).hexdigest())
+                else:
+                    if r >= 0:
+                        res["fails"].append({"status": "prop_fail", "what": "LZ4_decompress_safe_continue accepted (ret %d) a block whose offset reaches %d bytes back with only %d bytes of history (stream %d after reset, geometry %s, build %s)" % (r, far, have, stream, geometry, bname),
+                                             "detail": {"blk": blk.hex()[:400]}})
+                    res["keys"].add(hashlib.sha1(blk + b"bad").hexdigest())
+                    break     # the stream is dead after an error
+            # the stream is over: release its memory
+            for x in bufs: x.free()
+            if dictb: dictb.free()
+        sd.free()
+        res["stats"]["streamdec"] += 1
+
 def run_case(st, case):
     import collections
     rng = random.Random(case["bseed"])
@@ -96,6 +181,9 @@ def run_case(st, case):
                 blk = bytes(t)
                 st["cur_hist"] = b"\x01\x02\x03\x04\x05\x06\x07\x08\x09"
                 one(st, blk, 20, rng, res)
+    elif kind == "streamdec":
+        for j in range(case["count"] // 4):
+            stream_decode_case(st, rng, res)
     else:
         for j in range(case["count"]):
             ds = rng.choice(DICT_SIZES)
